@@ -369,22 +369,11 @@ func compareALMPDigits(a, b string) int {
 		return 1
 	}
 
-	// Convert to integers for comparison
-	aNum, aErr := strconv.ParseUint(a, 10, 64)
-	bNum, bErr := strconv.ParseUint(b, 10, 64)
+	// Leading zeros are not significant
+	a = strings.TrimLeft(a, "0")
+	b = strings.TrimLeft(b, "0")
 
-	if aErr == nil && bErr == nil {
-		if aNum < bNum {
-			return -1
-		}
-		if aNum > bNum {
-			return 1
-		}
-		return 0
-	}
-
-	// Fallback for very large numbers that don't fit in uint64
-	// Compare by length first (longer number is larger)
+	// Without leading zeros, the longer number is the larger one
 	if len(a) < len(b) {
 		return -1
 	}
